@@ -11,6 +11,8 @@ from exactly_lib.test_suite.reporters import simple_progress_reporter as spr
 from exactly_lib.test_suite.reporters import junit
 from exactly_lib.util.ansi_terminal_color import ForegroundColor
 
+from contracts import C02_outcome  # noqa: F401  (exit_values.from_result is used through its C02 contract)
+
 M = Module('C16')
 
 P_SPR = 'exactly_lib.test_suite.reporters.simple_progress_reporter'
